@@ -111,3 +111,31 @@ func StreamDescOf(mtd string) *grpc.StreamDesc {
 	}
 	return nil
 }
+
+// UnaryInt returns a server interceptor that records its invocation in Events
+// and either forwards or short-circuits with the given error.
+func (h *Hooks) UnaryInt(name string, forward bool, shortErr error, check func(info *grpc.UnaryServerInfo)) grpc.UnaryServerInterceptor {
+	return func(ctx context.Context, req interface{}, info *grpc.UnaryServerInfo, handler grpc.UnaryHandler) (interface{}, error) {
+		h.Events = append(h.Events, name)
+		if check != nil {
+			check(info)
+		}
+		if !forward {
+			return nil, shortErr
+		}
+		return handler(ctx, req)
+	}
+}
+
+func (h *Hooks) StreamInt(name string, forward bool, shortErr error, check func(info *grpc.StreamServerInfo)) grpc.StreamServerInterceptor {
+	return func(srv interface{}, ss grpc.ServerStream, info *grpc.StreamServerInfo, handler grpc.StreamHandler) error {
+		h.Events = append(h.Events, name)
+		if check != nil {
+			check(info)
+		}
+		if !forward {
+			return shortErr
+		}
+		return handler(srv, ss)
+	}
+}
